@@ -173,9 +173,8 @@ def r5_add_table(ctx):
   ctx.extra['add_table_rows'] = rows
 
 
-def r23_resolution_table(ctx):
-  R = 'C11.R3'
-  rs = ctx.rule(R, 'resolution: last applicable rule wins over scopes in insertion order; unsupported rules are skipped', floor=1)
+def r23_resolution_table(ctx, R='C11.R3', title='resolution: last applicable rule wins over scopes in insertion order; unsupported rules are skipped', single_only=False):
+  rs = ctx.rule(R, title, floor=1)
   f = ctx.repo.func(f'{RM}.get_quantization_configs')
   ctx.instance(R)
   OP, ALG, good, srq, bad = _domain(ctx)
@@ -207,11 +206,12 @@ def r23_resolution_table(ctx):
     for n1 in names:
       store_shapes.append([(r1, [n1])])
       for n2 in names:
-        if n2 != n1:
+        if n2 != n1 and not single_only:
           store_shapes.append([(r1, [n1, n2])])
   for r1, r2 in itertools.permutations(['x', 'y'], 2):
     for n1, n2 in itertools.product(names, names):
-      store_shapes.append([(r1, [n1]), (r2, [n2])])
+      if not single_only:
+        store_shapes.append([(r1, [n1]), (r2, [n2])])
   for shape in store_shapes:
     store = {}
     flat = []
